@@ -399,11 +399,27 @@ def expected_guess(h, vw, vp):
 
     def plain():
         return [min(1.1, 1 / np.sqrt(1 - min(vw ** 2, t.cb2))) * Tn, Tn]
+    def own_initial(vwT, vpT):
+        # hydrodynamicsTemplateModel.matchDeflagOrHybInitial (vp given), the harness's OWN
+        # copy of the closed forms (C15 proves them): not the method under test
+        vm_ = min(vwT, float(t.cb))
+        al = ((vm_ - vpT) * (t.cb2 - vm_ * vpT)) / (3 * t.cb2 * vm_ * (1 - vpT ** 2))
+        A = (1 - 3 * t.alN) * t.mu - t.nu
+        B = (1 - 3 * al) * t.mu - t.nu
+        wp = np.float64(np.sign(A) * np.sign(B) * (abs(A) + 1e-100) / (abs(B) + 1e-100))
+        with np.errstate(all="ignore"):
+            Tp_ = np.float64(t.Tnucl) * wp ** (1 / t.mu)
+            ap = 3 / (t.mu * t.Tnucl ** t.mu)
+            am = 3 * t.psiN / (t.nu * t.Tnucl ** t.nu)
+            Tm_ = np.float64((ap * vpT * t.mu * (1 - vm_ ** 2) * Tp_ ** t.mu) / (
+                am * vm_ * t.nu * (1 - vpT ** 2))) ** (1 / t.nu)
+        return [Tp_, Tm_]
     try:
         if vw > t.vMin:
             vwT = min(vw, t.vJ - 1e-6)
             vpT = vp if vp is None else min(vp, vwT)
-            g = list(t.matchDeflagOrHybInitial(vwT, vpT))
+            g = list(t.matchDeflagOrHybInitial(vwT, vpT)) if vp is None else \
+                own_initial(vwT, vpT)
         else:
             g = [Tn, 0.99 * Tn]
     except WallGoError:
@@ -543,6 +559,11 @@ def failure_key(h, vw, kind, fallback, state, slow_fallback_mech=False, resid_me
     The same symptom with any other cause keeps its generic key and is a new violation."""
     corner = h.vMin == VB_FLOOR and vw < 1.5 * VB_FLOOR
     if fallback:
+        t = h.template
+        if kind == "range" and t.alN <= (t.mu - t.nu) / (3 * t.mu):
+            # C15 template-alpha-below-threshold seen through the fallback: the template
+            # solver returns NaN temperatures for alN <= (mu-nu)/(3mu) (cb2 > cs2)
+            return "template-alpha-below-threshold"
         if h.vJ * (1 - 1e-8) <= vw <= h.vJ and kind in ("energy-flux", "momentum-flux",
                                                         "c1-rear", "c2-rear", "fallback"):
             # at vw == vJ (to 1e-8) the hybrid branch finds no bracket and hands over to the
@@ -560,6 +581,8 @@ def failure_key(h, vw, kind, fallback, state, slow_fallback_mech=False, resid_me
         # is not small against vp^2 <= 1e-5 (vw < 3.2e-3): third member of the slow-wall
         # family
         return "slow-wall-residual-not-small"
+    if kind == "shock-root-on-jump":
+        return "findMatching-root-on-jump"      # recorded under C03; mechanism measured here
     if kind in CONSEQUENCE:
         if state == "accepted":
             return "slow-wall-unconverged-accepted" if corner else \
@@ -584,12 +607,43 @@ RECORDED = [   # inputs of the recorded findings, replayed first on every run
      0.6952983303589946),
     # template fallback at exactly vw = vJ on a traced (non-template) equation of state
     (dict(kind="traced", D=0.2, E=0.05, lam=0.1, T0=80.0, Tn=83.011), "vJ"),
+    # shock root on a jump of the shooting function (C03 class), at vw = vJ
+    (dict(kind="template", alN=0.14285, psiN=0.647, cb2=0.202, cs2=0.3152, Tn=0.0046025,
+          rtol=1e-6, atol=1e-10, tmax=6.0, tmin=0.03), "vJ"),
+    # NaN of the template solver returned through the fallback (C15 small-alpha class)
+    (dict(kind="template", alN=0.00885, psiN=0.978, cb2=0.2315, cs2=0.2214, Tn=8.24, wn=0.37,
+          rtol=1e-6, atol=1e-10, tmax=6.0, tmin=0.03), 0.0030147923250220835),
     # hybr "success" with a residual as large as vm^2 (slow wall, traced potential)
     (dict(kind="traced", D=0.2, E=0.05, lam=0.08, T0=80.0, Tn=84.108), 0.0010011),
 ]
 
 RELRES_MAX = 1e-3   # largest residual / (vp^2 or vm^2) of a solve that reports success
 K_SHOCK = 50.0      # |T_shock/Tn - 1| <= K_SHOCK * shock_tolerance (calibrated, see evidence)
+
+
+def root_on_jump(h, vw, vp, miss):
+    """mechanism of C03 findMatching-root-on-jump, measured on the live object: the shooting
+    function F(x) = solveHydroShock(vw, x, T+(x)) - Tn rebuilt from the public methods equals
+    the observed miss at x = v+ (to 5%) and, for some d in {1e-7..1e-4}, changes sign between two of
+    v+(1-d), v+, v+(1+d) with magnitudes >= half the miss: brentq converged onto a JUMP of the
+    code's own (discontinuous) shooting function, for the REQUESTED vw"""
+    def F(x):
+        _, _, Tp_, _ = h.matchDeflagOrHyb(vw, x)
+        return float(h.solveHydroShock(vw, x, Tp_)) - h.Tnucl
+    try:
+        f0 = F(vp)
+        if abs(f0 - miss) > 0.05 * abs(miss):
+            return False
+        for d in (1e-7, 1e-6, 1e-5, 1e-4):
+            a, b = F(vp * (1 - d)), F(vp * (1 + d))
+            for u, v in ((a, b), (a, f0), (f0, b)):
+                # a sign change of at least half the miss within d of v+ (the function may
+                # hop back and forth between two branches of the inner 2x2 solve)
+                if u * v < 0 and min(abs(u), abs(v)) >= 0.5 * abs(miss):
+                    return True
+    except Exception:
+        pass
+    return False
 
 
 def shock_tolerance(h, vp, Tp):
@@ -600,6 +654,10 @@ def shock_tolerance(h, vp, Tp):
     return (h.rtol + h.atol / h.Tnucl) + (h.rtol + h.atol / vp) * max(heating, 1e-3)
 
 
+RECORDED_KEYS = ["slow-wall-unconverged-accepted", "slow-wall-template-fallback",
+                 "unconverged-accepted-absolute-threshold", "unconverged-matching-returned",
+                 "template-fallback-at-vJ", "slow-wall-residual-not-small",
+                 "findMatching-root-on-jump", "template-alpha-below-threshold"]
 K_ACC = 200.0     # returned (Tp, Tm) within K_ACC * xtol * Tn (+1e-9 rel.) of an exact zero of
 #                   the captured residual: hybr's xtol (= self.atol) bounds the relative step in
 #                   the mapped variables, dT <= (TMax-TMin)/(2 pi) * xtol ~ 1.6 Tn xtol
@@ -633,6 +691,7 @@ def check_point(ctx, case, th, h, vw, stats=None):
             raised = None
         except Exception as ex:
             raised = ex
+    hsucc = bool(h.success)         # before the harness makes any further call
     info = None if branch == "detonation" else solve_info(h, spy, vw)
     state = solve_state(info)
     if raised is not None or (spy.matchings and spy.matchings[-1][0] is None):
@@ -663,8 +722,7 @@ def check_point(ctx, case, th, h, vw, stats=None):
         bads.append(("findHydroBoundaries(%.15g) asked findMatching for %r" % (
             vw, spy.fm_args), "matching-of-another-velocity"))
     rec.update(vp=vp, vm=vm, Tp=Tp, Tm=Tm, fallback=spy.fallback, state=state)
-    label.update(returned=[vp, vm, Tp, Tm], fallback=spy.fallback,
-                 success=bool(h.success))
+    label.update(returned=[vp, vm, Tp, Tm], fallback=spy.fallback, success=hsucc)
     if info is not None:
         label.update(hybr_status=info["status"], sum_fun_sq=info["ssq"],
                      guess_is_the_codes=info["guess_ok"])
@@ -815,9 +873,26 @@ def check_point(ctx, case, th, h, vw, stats=None):
             shock_ok = dsh <= tolsh
             ctx.count("shock_condition", bucket="fallback" if spy.fallback else "solved")
             if not shock_ok and not spy.fallback:
+                # measured conditioning: the shooting root v+ is only asked to atol + rtol v+;
+                # T_shock moves by S = |dF/dln v+|/Tn per relative change of v+
+                try:
+                    def F_(x):
+                        return float(h.solveHydroShock(vw, x, h.matchDeflagOrHyb(vw, x)[2]))
+                    S = abs(F_(vp * (1 + 1e-3)) - F_(vp * (1 - 1e-3))) / (2e-3 * h.Tnucl)
+                    tolsh = max(tolsh, K_SHOCK * ((h.rtol + h.atol / h.Tnucl)
+                                                  + S * (h.rtol + h.atol / vp)))
+                    rec["shock_over_tol"] = dsh / tolsh
+                    shock_ok = dsh <= tolsh
+                except Exception:
+                    pass
+            if not shock_ok and not spy.fallback:
+                jump = root_on_jump(h, vw, vp, Tsh - h.Tnucl)
                 bads.append(("the shock launched by (vw=%.9g, vp=%.9g, Tp=%.9g) reaches "
-                             "%.9g, not Tn=%.9g (rel %.3g > %.3g)" % (
-                                 vw, vp, Tp, Tsh, h.Tnucl, dsh, tolsh), "shock-misses-Tn"))
+                             "%.9g, not Tn=%.9g (rel %.3g > %.3g)%s" % (
+                                 vw, vp, Tp, Tsh, h.Tnucl, dsh, tolsh,
+                                 " [v+ sits on a jump of the code's own shooting function]"
+                                 if jump else ""),
+                             "shock-root-on-jump" if jump else "shock-misses-Tn"))
         except Exception as ex:
             ctx.count("shock_condition", bucket="raised:" + type(ex).__name__)
     # ---- fluxes of a template fallback (an approximation unless the EOS is template) ------
@@ -869,9 +944,9 @@ def check_point(ctx, case, th, h, vw, stats=None):
             if info is not None and not same(float(info["vp"]), vp):
                 bads.append(("returned vp=%.15g is not the shooting value %.15g of the final "
                              "2x2 solve" % (vp, float(info["vp"])), "vp-not-shooting-root"))
-            if info is not None and bool(h.success) != info["accepted"]:
+            if info is not None and hsucc != info["accepted"]:
                 bads.append(("Hydrodynamics.success = %r but the final solve has success=%r, "
-                             "sum fun^2 = %.3g" % (h.success, info["hybr_ok"], info["ssq"]),
+                             "sum fun^2 = %.3g" % (hsucc, info["hybr_ok"], info["ssq"]),
                              "success-flag"))
     # ---- the template fallback (last sentence of the property) ------------------------------
     if spy.fallback and branch != "detonation":
@@ -1190,11 +1265,19 @@ def run(ctx):
     for case, vw in RECORDED:
         try:
             th = build_model(case)
-            h = make_hydro(th)
+            h = make_hydro(th, case.get("rtol", RTOL), case.get("atol", ATOL),
+                           case.get("tmax", TMAX), case.get("tmin", TMIN))
             check_point(ctx, case, th, h, h.vJ if vw == "vJ" else vw, None)
         except Exception:
             ctx.log("recorded input raised", json.dumps(case), traceback.format_exc())
             ctx.broken.append("harness: recorded input raised")
+    reported = set(ctx.known_count) | {v["key"] for v in ctx.violations}
+    for key in RECORDED_KEYS:
+        if key not in reported:
+            ctx.log("KNOWN-FINDING-GONE:", key)
+            ctx.fail_input("the recorded finding %s no longer reproduces on any of its "
+                           "recorded inputs" % key, dict(case={}, vw=0, kind="recorded"),
+                           key=key + ":no-longer-reproduces")
     nmodels = ctx.n(14, 160)
     nvw = ctx.n(15, 21)
     # ---- certified correspondence: files written and coqc started now, collected below --
